@@ -45,6 +45,7 @@ inductive WBody where
   | strFwd (target : String) (args : List WExpr)
   | strLen
   | caseMap (target : String)
+  | newargsInner            -- `return (self._s,)`: what `__getnewargs__` hands to `__new__` on copy / unpickle
   | other (digest : String)
   deriving DecidableEq, Repr
 
